@@ -90,6 +90,7 @@ type simCluster struct {
 	closed    bool
 	logAppend bool // LogAppendTime: responses carry a timestamp
 
+	initPidFault   string
 	fetchPlans     map[string]*simFetchPlan
 	abortedReverse bool
 }
@@ -285,6 +286,16 @@ func (c *simCluster) handle(b *simBroker, req *request, wire int) (encoderWithHe
 	case *MetadataRequest:
 		return c.handleMetadata(b, body), ""
 	case *InitProducerIDRequest:
+		switch c.initPidFault {
+		case "drop":
+			c.rec.Ev("drop", kv{"req": 0, "when": "init_producer_id"})
+			return nil, "drop"
+		case "silence":
+			c.rec.Ev("drop", kv{"req": 0, "when": "init_producer_id_silence"})
+			return nil, ""
+		case "err":
+			return &InitProducerIDResponse{Err: ErrConsumerCoordinatorNotAvailable}, ""
+		}
 		return &InitProducerIDResponse{ProducerID: c.pid, ProducerEpoch: 0}, ""
 	case *ProduceRequest:
 		return c.handleProduce(b, body, wire)
